@@ -189,10 +189,13 @@ def assert_repo_bound() -> None:
 
 
 def load_known() -> List[Dict[str, Any]]:
-    p = VERIF / "KNOWN_FINDINGS.json"
-    if not p.exists():
-        return []
-    return json.loads(p.read_text())["findings"]
+    """Committed findings: KNOWN_FINDINGS.json and known_findings.d/*.json (never written at run time)."""
+    out: List[Dict[str, Any]] = []
+    paths = [VERIF / "KNOWN_FINDINGS.json"] + sorted((VERIF / "known_findings.d").glob("*.json"))
+    for p in paths:
+        if p.exists():
+            out.extend(json.loads(p.read_text()).get("findings", []))
+    return out
 
 
 def key_matches(pattern: Dict[str, Any], key: Dict[str, Any]) -> bool:
